@@ -7,6 +7,8 @@ export CARGO_NET_OFFLINE=true
 python3 tools/extract.py
 python3 tools/rs2lean.py
 python3 tools/rs2lean2.py
+python3 tools/rs2lean3.py
+python3 tools/rs2lean_eval.py
 [ -f tools/gen_c09.py ] && python3 tools/gen_c09.py || true
 (cd lean && lake build Wee weedriver)
 (cd harness && cargo build && cargo build --release)
